@@ -920,7 +920,7 @@ func exploreGraph(x *xrun, r *Rng, e *env, ctx context.Context, n int) {
 			}
 			mt := ocispec.MediaTypeImageManifest
 			if r.Chance(1, 4) {
-				mt = "application/vnd.cncf.oras.artifact.manifest.v1+json"
+				mt = mtArtifactManifest // registry/internal/artifactspec.MediaTypeArtifactManifest
 				man = map[string]any{"mediaType": mt, "artifactType": artNotation, "blobs": []any{layer}, "subject": subject}
 			}
 			var mb []byte
